@@ -264,11 +264,13 @@ func checkC18(c *Check) {
 	// (3)
 	c.mustPass(pg, "O-C18.3", "fresh: base download succeeded", "returning a fresh bundle", freshRets, A("+IsNil("+berr+")"))
 	setG := "(ncg/revocation/crl.Cache).Set(recv.Cache, p0, p1, &{ncg/revocation/crl.Bundle BaseCRL:" + b0 + " DeltaCRL:*})"
-	c.mustPass(pg, "O-C18.3", "fresh: written to the cache under the same URL", "returning a fresh bundle", freshRets, AnyOf(A("+IsNil(recv.Cache)"), CallG(setG)))
-	c.mustPass(pg, "O-C18.3", "fresh: cache write succeeded or errors discarded", "returning a fresh bundle", freshRets, AnyOf(A("+IsNil(recv.Cache)"), AG("+IsNil("+setG+")"), A("+Truth(recv.DiscardCacheError)")))
+	// (a bundle literal that leaves the delta out is a bundle whose delta is nil)
+	setG0 := "(ncg/revocation/crl.Cache).Set(recv.Cache, p0, p1, &{ncg/revocation/crl.Bundle BaseCRL:" + b0 + "})"
+	c.mustPass(pg, "O-C18.3", "fresh: written to the cache under the same URL", "returning a fresh bundle", freshRets, AnyOf(A("+IsNil(recv.Cache)"), CallG(setG), CallG(setG0)))
+	c.mustPass(pg, "O-C18.3", "fresh: cache write succeeded or errors discarded", "returning a fresh bundle", freshRets, AnyOf(A("+IsNil(recv.Cache)"), AG("+IsNil("+setG+")"), AG("+IsNil("+setG0+")"), A("+Truth(recv.DiscardCacheError)")))
 	setErr := filterOrigins(origins, func(o *origin) bool { return strings.Contains(o.Key, ".Set(recv.Cache") })
 	c.floor("cache-write error origins", 1, len(setErr))
-	c.justify(pg, "O-C18.3B", setErr, []Viol{{Name: "cache write failed and errors are not discarded", All: []LP{A("-IsNil(recv.Cache)"), AG("-IsNil(" + setG + ")"), A("-Truth(recv.DiscardCacheError)")}}}, originName)
+	c.justify(pg, "O-C18.3B", setErr, []Viol{{Name: "cache write failed and errors are not discarded", All: []LP{A("-IsNil(recv.Cache)"), AnyOf(AG("-IsNil("+setG+")"), AG("-IsNil("+setG0+")")), A("-Truth(recv.DiscardCacheError)")}}}, originName)
 	// what is written is what is returned; base is the download of the asked URL
 	good := len(freshRets) > 0
 	var fdet []string
@@ -278,7 +280,7 @@ func checkC18(c *Check) {
 		if strings.HasPrefix(k, "(ncg/revocation/crl.Cache).Set(") {
 			lit = strings.TrimSuffix(strings.TrimPrefix(k, "(ncg/revocation/crl.Cache).Set(recv.Cache, p0, p1, "), ")!3")
 		}
-		if !globMatch("&{ncg/revocation/crl.Bundle BaseCRL:"+b0+" DeltaCRL:*}", lit) {
+		if !globMatch("&{ncg/revocation/crl.Bundle BaseCRL:"+b0+" DeltaCRL:*}", lit) && lit != "&{ncg/revocation/crl.Bundle BaseCRL:"+b0+"}" {
 			good = false
 			fdet = append(fdet, c.P.pos(s.Node.Pos)+": "+k)
 		}
@@ -289,7 +291,7 @@ func checkC18(c *Check) {
 	for _, s := range freshRets {
 		k := retKey(s, 0)
 		switch {
-		case strings.Contains(k, " DeltaCRL:nil}"):
+		case strings.Contains(k, " DeltaCRL:nil}"), strings.Contains(k, "&{ncg/revocation/crl.Bundle BaseCRL:"+b0+"}"):
 			nilDelta = append(nilDelta, s)
 		case strings.Contains(k, " DeltaCRL:"+delta+"#0}"):
 			withDelta = append(withDelta, s)
